@@ -324,24 +324,46 @@ def rule_const(rep, d, fns):
                 rep.holds("C14.const", label, "dataflow summary", where=where, detail="initial value, block update and %d post-loop outcome(s) equal the reference" % len(posts_w))
         except (cf.Giveup, flow_Limit()) as e:
             rep.inconclusive("C14.const", label, "dataflow summary", where=where, detail=str(e))
-    # load_bytes: reference sequence (its index/loop discipline is C14.byte's and C14.cursor's business)
-    for label, fn, ref in (("load_bytes", fns["load"], REF_LOAD),):
-        seq, names = effect_sequence(fn)
-        where = d.where(fn)
-        if len(seq) != len(ref) or any(shape(a) != shape(b) for a, b in zip(seq, ref)):
-            i = next((i for i, (a, b) in enumerate(zip(seq, ref)) if shape(a) != shape(b)), min(len(seq), len(ref)))
-            got = show_eff(seq[i]) if i < len(seq) else "<end>"
-            want = show_eff(ref[i]) if i < len(ref) else "<end>"
-            rep.inconclusive("C14.const", label, "operation sequence", where=where,
-                             detail="statement %d has a different shape than the reference algorithm: found `%s`, reference `%s`" % (i + 1, got, want))
-            continue
-        bad = [(i, a, b) for i, (a, b) in enumerate(zip(seq, ref)) if a != b]
-        if bad:
-            for i, a, b in bad:
-                rep.violates("C14.const", label, "step %d" % (i + 1), where=where,
-                             detail="found `%s`, the reference algorithm has `%s`" % (show_eff(a), show_eff(b)))
-        else:
-            rep.holds("C14.const", label, "operation sequence", where=where, detail="%d steps equal the reference" % len(ref))
+    # load_bytes(p, n): executed over symbolic bytes for every count 1..7 - the result is the little-endian value of p[0..n-1], whatever
+    # the direction of the loop or the spelling of the accumulation, and nothing outside p[0..n-1] is read
+    from .. import bytesym
+    fn = fns["load"]
+    where = d.where(fn)
+    ps = ir.params(fn)
+    if len(ps) != 2:
+        rep.inconclusive("C14.const", "load_bytes", "little-endian value of the tail", where=where, detail="expected (pointer, count) parameters")
+        return
+    pn, cn = ps[0].get("name"), ps[1].get("name")
+    bad = None
+    for n_ in range(1, 8):
+        m = bytesym.Machine(d, {pn: 0})
+        m.env[cn] = n_
+        try:
+            r = m.run(ir.body(fn))
+        except bytesym.Unknown as e:
+            bad = ("?", "n = %d: %s" % (n_, e))
+            break
+        if r[0] != "return" or r[1] is None:
+            bad = ("?", "n = %d: no value returned" % n_)
+            break
+        outside = sorted({i for i in m.reads if not (0 <= i < n_)})
+        got = r[1] if isinstance(r[1], bytesym.Sym) else bytesym.Sym({"": r[1]} if r[1] else {})
+        want = bytesym.little_endian(n_)
+        if outside:
+            bad = ("n = %d" % n_, "reads p[%s], outside p[0..%d]" % (", ".join(map(str, outside)), n_ - 1))
+            break
+        if got != want:
+            sx_ = [k_ for k_ in got if k_ != "" and k_[0] == "c"]
+            why = ("p[%d] enters as a plain char (sign-extended for bytes >= 0x80): the conversion to unsigned char is missing" % sx_[0][1]) if sx_ else \
+                "returns `%s`, the reference MurmurHash64A tail is `%s`" % (got.show(), want.show())
+            bad = ("n = %d" % n_, why)
+            break
+    if bad and bad[0] == "?":
+        rep.inconclusive("C14.const", "load_bytes", "little-endian value of the tail", where=where, detail=bad[1])
+    elif bad:
+        rep.violates("C14.const", "load_bytes", "little-endian value of the tail", where=where, scenario=bad[0], detail=bad[1])
+    else:
+        rep.holds("C14.const", "load_bytes", "little-endian value of the tail", where=where, detail="executed over symbolic bytes for n = 1..7: sum of p[i] << 8i, i < n; reads within p[0..n-1]")
 
 
 def flow_Limit():
